@@ -147,6 +147,7 @@ func init() {
 			{"", "transformParenthesesToken", "guardsParen"},
 			{"", "escapeSheetName", "guardsEscape"},
 			{"", "needQuoteSheetName", "guardsNeedQuote"},
+			{"", "arrayConstantTokens", "guardsArray"},
 		} {
 			fd := funcDecl(f.recv, f.name)
 			if fd == nil {
